@@ -17,6 +17,7 @@ import contextlib
 import io
 import os
 import random
+import warnings
 import shutil
 import subprocess
 import sys
@@ -162,8 +163,11 @@ def replay(i):
                 with open(path, 'r', encoding='utf-8', newline='') as fh:
                     text = fh.read()
                 try:
-                    d1, e1 = kp.load(path)
-                    d2, e2 = kp.loads(text)
+                    # the documented entry points and their deprecated twins (read / create) in turn
+                    with warnings.catch_warnings():
+                        warnings.simplefilter('ignore')
+                        d1, e1 = kp.load(path) if (i + len(log)) % 3 else kp.read(path)
+                        d2, e2 = kp.loads(text) if (i + len(log)) % 2 else kp.create(text)
                     same = session.snapshot(d1) == session.snapshot(d2) and [(x.line, x.encoding) for x in e1] == [(x.line, x.encoding) for x in e2]
                     session.spoil_document(d1)          # both documents belong to the caller; the same text / file is loaded again later
                     session.spoil_document(d2)
@@ -176,12 +180,26 @@ def replay(i):
             ok = True
             if a['act'] == 'dump':
                 try:
-                    kp.dump(doc1, fpath(root, p))
+                    if (i + len(log)) % 3 == 0:            # the deprecated twin of dump
+                        with warnings.catch_warnings():
+                            warnings.simplefilter('ignore')
+                            kp.store(doc1, fpath(root, p), kp.ExportOptions())
+                    else:
+                        kp.dump(doc1, fpath(root, p))
                 except Exception:  # noqa
                     ok = False
             elif a['act'] == 'dump_opts':
                 try:
-                    kp.dump(doc1, fpath(root, p), **dump_options())
+                    if (i + len(log)) % 3 == 0:
+                        from kernpy.core import generic
+                        o = dump_options()
+                        if 'encoding' in o:
+                            o['kern_type'] = o.pop('encoding')
+                        with warnings.catch_warnings():
+                            warnings.simplefilter('ignore')
+                            kp.store(doc1, fpath(root, p), generic.Generic.parse_options_to_ExportOptions(**o))
+                    else:
+                        kp.dump(doc1, fpath(root, p), **dump_options())
                 except Exception:  # noqa
                     ok = False
             else:
